@@ -5,12 +5,13 @@ CONSTANTS
   PolysPerTask = 2
   MaxRaw = 2
   Need = 3
-  FB = 2
+  FB = 3
   Target0 = 1
   Slack = 1
   Seq = FALSE
   UseLock = TRUE
   UseGapAtomic = TRUE
+  FinalTestsDone = TRUE
   AbortEnabled = FALSE
 SYMMETRY Perms
 INVARIANT TypeOK
@@ -19,6 +20,5 @@ INVARIANT NoLostInsert
 INVARIANT FinalValid
 INVARIANT FlagsTruthful
 INVARIANT CompleteOrExhausted
-INVARIANT PanicOnlyIfShortOrStale
 INVARIANT NoSpuriousPanic
 CHECK_DEADLOCK TRUE
